@@ -27,6 +27,7 @@ def setup(drv):
     drv.build_websim()
     drv.build_cli(tag="default")
     drv.build_cli(features=["variablelist"], tag="variablelist-only")
+    drv.build_cli(tag="dev", dev=True)
     drv.build_server()
     for fs in FEATURE_SETS:
         drv.build_mon(features=fs, tag=ftag(fs))
@@ -107,6 +108,10 @@ def cli_leg(drv, merged, binary, sub, seed, tier, cli, cases, leg, extra=None, s
 def c15(spec, tier, seed, merged, drv, params, binary):
     cli = drv.build_cli(tag="default")
     cli_leg(drv, merged, binary, "c15", seed, tier, cli, params.get("cases", 100), "main")
+    # the dev-profile binary, always with debug / trace logging switched on (flags or RUST_LOG): small cases only
+    cli_dev = drv.build_cli(tag="dev", dev=True)
+    cli_leg(drv, merged, binary, "c15", seed + 3, tier, cli_dev, max(8, params.get("cases", 100) // 5), "cli[dev-profile,verbose]",
+            extra={"always_verbose": 1, "wide_cases": 0, "big_cli_cases": 0, "mid_cli_cases": 1, "nmax": 5}, shards=8)
     if tier == "thorough":
         # the CLI code differs with/without adhoccounting; run the same monitor on that build too
         cli2 = drv.build_cli(features=["variablelist", "frontend"], tag="no-adhoccounting")
